@@ -215,6 +215,18 @@ and node_of (s : sx) : node =
   | Node ("NRaise", [e]) -> NRaise (ast_of e)
   | Node ("NHandle", [e; cs]) -> NHandle (ast_of e, asts cs)
   | Node ("NImport", [f; i; a]) -> NImport (opt ast_of f, asts i, asts a)
+  | Node ("NDict", [es]) ->
+      NDict (List.map (function List [k; v] -> (ast_of k, ast_of v) | _ -> raise (Bad "dict pair")) (lst es))
+  | Node ("NListBuilder", [i; cs]) -> NListBuilder (ast_of i, asts cs)
+  | Node ("NSetBuilder", [i; cs]) -> NSetBuilder (ast_of i, asts cs)
+  | Node ("NDictBuilder", [f; t; cs]) -> NDictBuilder (ast_of f, ast_of t, asts cs)
+  | Node ("NWith", [r; a; b]) -> NWith (ast_of r, opt ast_of a, ast_of b)
+  | Node ("NClass", [n; gs; args; ps; b]) ->
+      NClass (str n, List.map nm_of (lst gs), asts args, asts ps, opt ast_of b)
+  | Node ("NParent", [n; gs; args]) -> NParent (str n, List.map nm_of (lst gs), asts args)
+  | Node ("NTypeDef", [n; gs; isa; b; ab]) ->
+      NTypeDef (str n, List.map nm_of (lst gs), opt nm_of isa, opt ast_of b, boolean ab)
+  | Node ("NTypeAlias", [n; gs; isa]) -> NTypeAlias (str n, List.map nm_of (lst gs), nm_of isa)
   | Node (h, _) -> raise (Bad ("node outside the model: " ^ h))
   | Atom a -> raise (Bad ("node outside the model: " ^ a))
   | List _ -> raise (Bad "node")
